@@ -7,7 +7,9 @@ CONFORM = ['absent', 'returns-None', 'returns-value', 'returns-falsy', 'raises-R
            'getattr-raises-AttributeError',
            # the same behaviours reached through the instance __dict__ / a class __getattr__ instead of a class attribute
            'instance-returns-None', 'instance-returns-value', 'instance-raises-RuntimeError', 'dunder-getattr-returns-value']
-HOOK = ['None', 'value', 'falsy', 'raises']
+HOOK = ['None', 'value', 'falsy', 'raises',
+        # hooks that change the list they are called from (the documented loop is `for hook in adapter_hooks`, i.e. the live list)
+        'None-drops-rest', 'None-appends-late']
 CUSTOM = ['absent', 'returns-None', 'returns-value', 'returns-falsy', 'raises', 'calls-super',
           'inherited-plain', 'inherited-with-other-interfacemethod']
 ALT = ['not-given', 'object', 'None']
@@ -45,7 +47,7 @@ def run_case(case, trace=False):
     from zope.interface import Interface, implementer, interfacemethod
     from zope.interface import interface as zi
     log = []
-    V = {k: _Val(k) for k in ('conform', 'custom', 'alt', 'h0', 'h1', 'h2')}
+    V = {k: _Val(k) for k in ('conform', 'custom', 'alt', 'h0', 'h1', 'h2', 'late')}
     F = {k: _Falsy(k) for k in ('conform', 'custom', 'h0', 'h1', 'h2')}
 
     def custom_body(self, obj):
@@ -140,8 +142,18 @@ def run_case(case, trace=False):
                 return V['h%d' % i]
             if kind == 'falsy':
                 return F['h%d' % i]
+            if kind == 'None-drops-rest':
+                del zi.adapter_hooks[zi.adapter_hooks.index(hook) + 1:]
+                return None
+            if kind == 'None-appends-late':
+                zi.adapter_hooks.append(late_hook)
+                return None
             raise _Boom('hook%d' % i)
         return hook
+
+    def late_hook(iface, obj):
+        log.append('hook-late')
+        return V['late']
     hook_fns = [mkhook(i, HOOK[k]) for i, k in enumerate(hooks)]
 
     # ---- reference: PEP 246 order, as an event log + outcome -------------------
@@ -171,14 +183,24 @@ def run_case(case, trace=False):
         def default_adapt():
             if provided:
                 return ('ret', ob)
-            for i, k in enumerate(hooks):
-                elog.append('hook%d' % i)
-                if HOOK[k] == 'value':
+            live = [(i, HOOK[k]) for i, k in enumerate(hooks)]
+            pos = 0
+            while pos < len(live):
+                i, kind = live[pos]
+                pos += 1
+                elog.append('hook-late' if kind == 'late' else 'hook%d' % i)
+                if kind == 'late':
+                    return ('ret', V['late'])
+                if kind == 'value':
                     return ('ret', V['h%d' % i])
-                if HOOK[k] == 'falsy':
+                if kind == 'falsy':
                     return ('ret', F['h%d' % i])
-                if HOOK[k] == 'raises':
+                if kind == 'raises':
                     return ('raise', '_Boom')
+                if kind == 'None-drops-rest':
+                    del live[pos:]
+                if kind == 'None-appends-late':
+                    live.append((None, 'late'))
             return ('ret', None)
         c = CUSTOM[custom]
         if c == 'absent':
@@ -251,6 +273,8 @@ def make_e_order(params, part, nparts):
         assume((c_conf * customs + c_cust) % nparts == part)
         n = pick(nhooks, NH + 1)
         hooks = tuple(pick(x, len(HOOK)) for x in (h0, h1, h2)[:n])
+        # list-mutating hook kinds only where the hooks can run at all (the other __conform__ kinds check "never run" with the plain kinds)
+        assume(all(k < 4 for k in hooks) or c_conf in (0, 1))
         case = (c_conf, pick(provided, 2), hooks, c_cust, pick(alt, 3), pick(entry, 2))
         assume(not (case[5] == 1 and case[4] != 0))  # __adapt__ takes no alternate
         reached(case, dict(conform=CONFORM[case[0]], provided=case[1], hooks=[HOOK[k] for k in hooks],
@@ -331,7 +355,7 @@ HARNESSES = [
                        thorough=dict(budget_s=900, parts=16, params=dict(max_hooks=3))),
             encoded=_ENC,
             bounds='__conform__ behaviour (13 kinds incl. raising AttributeError/TypeError inside the call, raising property, and __conform__ found in the instance __dict__ or through a class __getattr__) x '
-                   'provided x hook lists of length <=2 (3) over {None, value, falsy value, raises} x custom __adapt__ (8 kinds incl. '
+                   'provided x hook lists of length <=2 (3) over {None, value, falsy value, raises, returns None after deleting the hooks behind it, returns None after appending a hook} x custom __adapt__ (8 kinds incl. '
                    'inherited ones) x alternate {absent, object, None} x entry {I(obj[,alt]), I.__adapt__(obj)}; both builds',
             outside='security proxies; __conform__ as an unbound method of a class used as the object (the documented TypeError trick)',
             oracle='PEP 246 reference producing the expected event log and outcome; the real call log must be identical',
